@@ -135,10 +135,28 @@ func (c09HTTP) Books(pool types.ConnectionPool) c09.Books {
 
 // SelfDeadlock: connPool.Close holds p.clientMux while it closes the idle clients; the synchronous
 // close event reaches activeClient.OnEvent -> connPool.onConnectionEvent, which locks p.clientMux again.
+const (
+	c09DLCloseClass  = "I3 self-deadlock in pool Close with an idle connection (idle connections never leave the books)"
+	c09DLCloseDetail = "connPool.Close holds clientMux while closing the idle clients; the synchronous close event runs activeClient.OnEvent -> connPool.onConnectionEvent, which locks clientMux again: the caller of Close waits for itself while holding the pool mutex, every later NewStream on this pool blocks too"
+)
+
+func (c09HTTP) PredictDeadlock(pool types.ConnectionPool, ev string, conn *vfake.Conn) (string, string) {
+	p := pool.(*connPool)
+	if ev != "close" {
+		return "", ""
+	}
+	p.clientMux.Lock()
+	n := len(p.availableClients)
+	p.clientMux.Unlock()
+	if n > 0 {
+		return c09DLCloseClass, c09DLCloseDetail
+	}
+	return "", ""
+}
+
 func (c09HTTP) SelfDeadlock(stack string) (class, detail string) {
 	if a, b := strings.Index(stack, "(*connPool).onConnectionEvent"), strings.Index(stack, "(*connPool).Close("); a >= 0 && b > a {
-		return "I3 self-deadlock in pool Close with an idle connection (idle connections never leave the books)",
-			"connPool.Close holds clientMux while closing the idle clients; the synchronous close event runs activeClient.OnEvent -> connPool.onConnectionEvent, which locks clientMux again: the caller of Close waits for itself while holding the pool mutex, every later NewStream on this pool blocks too"
+		return c09DLCloseClass, c09DLCloseDetail
 	}
 	return "", ""
 }
